@@ -388,7 +388,7 @@ class RunLoop(W.LoopContract):
             if e["ckpts"]:
                 oblige("step.checkpoint.label", S(e["ckpts"][0][0]) == k + 1)
         else:
-            oblige("step.checkpoint.suppressed", E.const(len(e["ckpts"]) == 0))
+            oblige("step.checkpoint.suppressed", E.const(len(e["ckpts"]) == 0), replay=replay_checkpoint_off)
 
     def exit(self, L):
         # k == steps: every allocated row has been written (no filler), i.e. cursor == capacity
@@ -572,6 +572,36 @@ def classify_cadence(model, rep):
     if pos and k1 % min(pos) != 0 and any(isinstance(v, int) and v > 0 and k1 % v == 0 for v in ds.values()):
         return "vector-stream-due-at-a-step-that-is-not-a-multiple-of-the-smallest-vector-cadence"
     return "other"
+
+
+_RP_ONCE = {}
+
+
+def replay_checkpoint_off(model):
+    """real code: AM1 H2, 105 steps with 'checkpoint every': 0 -- no restart file may appear (a cadence of zero suppresses the stream)."""
+    if "r" in _RP_ONCE:
+        return _RP_ONCE["r"]
+    import os, shutil, tempfile, io, contextlib, glob
+    import torch
+    from seqm.seqm_functions.constants import Constants
+    from seqm.Molecule import Molecule
+    from seqm.MolecularDynamics import Molecular_Dynamics_Basic
+
+    torch.set_default_dtype(torch.float64)
+    tmp = tempfile.mkdtemp(prefix="pyvc_c11_")
+    try:
+        params = {"method": "AM1", "scf_eps": 1e-6, "scf_converger": [1], "sp2": [False, 1e-5], "elements": [0, 1], "learned": [], "pair_outer_cutoff": 1e10, "eig": True}
+        mol = Molecule(Constants(), params, torch.tensor([[[0.0, 0.0, 0.0], [0.78, 0.0, 0.0]]]), torch.as_tensor([[1, 1]], dtype=torch.int64))
+        md = Molecular_Dynamics_Basic(params, timestep=0.2, Temp=100.0, output={"molid": [0], "prefix": os.path.join(tmp, "md"), "print every": 0, "checkpoint every": 0, "xyz": 0, "h5": {}})
+        with contextlib.redirect_stdout(io.StringIO()):
+            md.run(mol, 105, seed=1)
+        files = sorted(os.path.basename(f) for f in glob.glob(os.path.join(tmp, "*")))
+        _RP_ONCE["r"] = {"reproduced": any(f.endswith(".pt") for f in files), "steps": 105, "checkpoint every": 0, "files_written": files}
+    except Exception as exc:  # noqa
+        _RP_ONCE["r"] = {"reproduced": False, "error": repr(exc)[:300]}
+    finally:
+        shutil.rmtree(tmp, ignore_errors=True)
+    return _RP_ONCE["r"]
 
 
 def replay_cadence(model):
